@@ -200,7 +200,7 @@ registry! {
     c01_list_trim_3, "C01", experimental, 6, plain, 1800 => c01::list_trim(3); // LTRIM kernel, list of 3, start/stop = any isize pair
     c01_list_set_3, "C01", thorough, 6, plain, 1800 => c01::list_set(3); // LSET kernel, list of 3, index = any isize
     c01_getrange_3, "C01", thorough, 6, plain, 1800 => c01::getrange(3); // GETRANGE on a 3-byte string, start/end = any isize pair
-    c01_set_px, "C01", thorough, 6, plain, 2400 => c01::set_px_then_observe(); // SET PX: px = any i64, now, dt < 2^40; then GET/TTL/PTTL
+    c01_set_px, "C01", experimental, 6, plain, 2400 => c01::set_px_then_observe(); // SET PX: px = any i64, now, dt < 2^40; then GET/TTL/PTTL
     c01_set_ex, "C01", thorough, 6, plain, 3000 => c01::set_ex_then_observe(); // SET EX: s = any i64
     c01_expire_opts, "C01", thorough, 6, plain, 2400 => c01::expire_options(1000); // EXPIRE none|NX|XX|GT|LT, seconds = any i64, optional existing deadline
     c01_pexpire_opts, "C01", experimental, 6, plain, 1500 => c01::expire_options(1); // PEXPIRE none|NX|XX|GT|LT, ms = any i64
@@ -580,7 +580,7 @@ registry! {
     c05_edges, "C05", experimental, 8, small, 1500 => c05::edges(); // nested MULTI, EXEC/DISCARD without MULTI, WATCH inside MULTI, UNWATCH
     c16_arm_get, "C16", thorough, 12, ascii, 1800 => c16::arm(b"GET", 0, 2, 2, c16arm!(GET)); // GET arm of both parsers (S7 extraction), arities 0..=2, arguments of 2 symbolic ASCII bytes
     c04_split_array_5_n0, "C04", quick, 12, alloc, 300 => c15::array(b"5", Some(5), 0, false); // a 5-element command whose '*5' header arrives alone in a read: both decoders must ask for more bytes (codec) / not accept (parser)
-    c04_split_array_9_n1, "C04", thorough, 12, alloc, 300 => c15::array(b"9", Some(9), 1, false); // '*9' header + one complete element in the first read
+    c04_split_array_9_n1, "C04", experimental, 12, alloc, 900 => c15::array(b"9", Some(9), 1, false); // '*9' header + one complete element in the first read
     c13_twin, "C13", experimental, 8, plain, 300 => c13::twin();
     c13_fold_2, "C13", experimental, 8, plain, 900 => c13::fold(2, 0); // 2 LWW updates of one key in the compacted segments: symbolic stamps (two replicas may share a time), bytes, tombstones; tombstone cutoff = any u64
     c13_fold_2_outside, "C13", experimental, 8, plain, 1200 => c13::fold(2, 1); // same + optionally one update of the key in a segment/checkpoint outside the compaction
